@@ -1,5 +1,237 @@
-"""Generated helper methods (Executor / Querier traits, multitest proxies): normal forms. Filled in with C10/C12."""
+"""Generated helper methods (Executor / Querier traits, InstantiateBuilder, multitest proxies): normal forms."""
+from . import common as C
+from . import wrapper as W
+from .common import A, G, M, ENUM_KINDS, ACCESSOR, MSG_NAME
+
+
+def api_ctor_calls(body):
+    """calls of the form  <X as ..Api>::Acc::ctor(args)  (also `Acc::<..>::ctor`) inside a body"""
+    out = []
+    for c in A.find_all(body, lambda n: isinstance(n, dict) and n.get("x") and n.get("k") == "call" and n["func"].get("k") == "path"):
+        f = c["func"]
+        segs = [s["id"] for s in f["path"]["segs"]]
+        if f.get("qself") is not None and f.get("qpos") is not None and len(segs) == f["qpos"] + 2:
+            tr = segs[:f["qpos"]]
+            acc = segs[f["qpos"]]
+            ctor = segs[f["qpos"] + 1]
+            api = "iface" if tr and tr[-1] == "InterfaceMessagesApi" else "contract" if tr and tr[-1] == "ContractApi" else None
+            if api is None:
+                continue
+            args = []
+            for a in c["args"]:
+                ids = A.path_ids(A.strip_expr(a))
+                args.append(ids[0] if ids and len(ids) == 1 else None)
+            out.append({"api": api, "acc": acc, "ctor": ctor, "args": args, "self_ty": A.type_str(f["qself"]), "node": c})
+    return out
+
+
+def ctor_to_variant(g, ty):
+    """constructor fn name -> variant it builds (from the inherent impl of a K-enum); 'new' -> None for structs"""
+    out = {}
+    for imp in g.inherent_impls(ty["name"]):
+        for f in imp["items"]:
+            if f.get("k") != "fn" or f["name"] == "dispatch":
+                continue
+            st, tail = A.block_parts(f["body"])
+            t = A.strip_expr(tail) if tail else None
+            if t and t["k"] == "struct":
+                ids = [s["id"] for s in t["path"]["segs"]]
+                out[f["name"]] = ids[-1] if len(ids) == 2 else None
+    return out
+
+
+def self_call(e, method):
+    """`self.<method>()` possibly followed by identity methods (to_owned / clone ...)"""
+    e = A.strip_expr(e)
+    while e["k"] == "mcall" and e["method"] in ("to_owned", "clone", "to_string", "into", "to_vec") and not e["args"]:
+        e = A.strip_expr(e["recv"])
+    if e["k"] == "ref":
+        return self_call(e["expr"], method)
+    return e["k"] == "mcall" and e["method"] == method and not e["args"] and A.path_ids(e["recv"]) == ["self"]
+
+
+def self_field_expr(e, field):
+    e = A.strip_expr(e)
+    while (e["k"] == "mcall" and e["method"] in ("to_owned", "clone", "to_string", "into") and not e["args"]) or e["k"] == "ref" \
+            or (e["k"] == "unary" and e["op"] == "*"):
+        e = A.strip_expr(e["recv"] if e["k"] == "mcall" else e["expr"])
+    return e["k"] == "field" and e["member"] == field and A.path_ids(e["base"]) == ["self"]
+
+
+def classify_helper(f):
+    """Normal form of one helper method body: which message it builds and which operation consumes it."""
+    nf = {"name": f["name"], "params": [(i["pat"].get("name"), A.type_str(i["ty"])) for i in f["inputs"] if not i.get("recv")],
+          "ret": A.type_str(f["output"]) if f["output"] else None, "fn": f}
+    ctors = api_ctor_calls(f["body"])
+    if len(ctors) != 1:
+        raise G.Unrecognised(f"helper {f['name']}: {len(ctors)} message constructor calls")
+    nf["msg"] = ctors[0]
+    ctor_node = ctors[0]["node"]
+    env = {}
+    stmts, tail = A.block_parts(f["body"])
+    for s in stmts:
+        if s["k"] == "let" and s["pat"]["k"] == "ident" and s["init"] is not None:
+            env[s["pat"]["name"]] = A.strip_expr(s["init"])
+        else:
+            raise G.Unrecognised(f"helper {f['name']}: unexpected statement")
+
+    def is_msg(e):
+        e = A.strip_expr(e)
+        if e["k"] == "ref":
+            e = A.strip_expr(e["expr"])
+        if e is ctor_node:
+            return True
+        ids = A.path_ids(e)
+        return bool(ids) and len(ids) == 1 and env.get(ids[0]) is ctor_node
+
+    t = A.strip_expr(tail) if tail else None
+    if t is None:
+        raise G.Unrecognised(f"helper {f['name']}: no tail")
+    had_err, inner = A.peel_err_into(t)
+    inner = A.strip_expr(inner)
+    if inner["k"] == "mcall" and inner["method"] == "map_err":
+        nf["err_map"] = True
+        inner = A.strip_expr(inner["recv"])
+    nf["err_into"] = had_err
+    # Ok(ExecutorBuilder::<Ready>::new(contract, funds, to_json_binary(&msg)?))
+    if inner["k"] == "call" and A.last_seg(inner["func"]) == "Ok" and len(inner["args"]) == 1:
+        b = A.strip_expr(inner["args"][0])
+        if b["k"] == "call" and A.path_ids(b["func"])[-2:] == ["ExecutorBuilder", "new"] and len(b["args"]) == 3:
+            seg = b["func"]["path"]["segs"][-2]
+            state = A.garg_str(seg["args"][0]).split("::")[-1] if isinstance(seg["args"], list) and seg["args"] else None
+            a2 = A.strip_expr(b["args"][2])
+            enc_ok = False
+            if a2["k"] == "try":
+                c = A.strip_expr(a2["expr"])
+                if c["k"] == "call" and A.last_seg(c["func"]) == "to_json_binary" and len(c["args"]) == 1 and is_msg(c["args"][0]):
+                    enc_ok = True
+            nf["op"] = {"kind": "executor_builder", "state": state, "contract": self_call(b["args"][0], "contract"), "funds": self_call(b["args"][1], "funds"), "encodes_msg": enc_ok}
+            return nf
+    if inner["k"] == "mcall" and inner["method"] == "query_wasm_smart" and len(inner["args"]) == 2:
+        r = A.strip_expr(inner["recv"])
+        via = None
+        if self_call(r, "querier"):
+            via = "self.querier()"
+        elif r["k"] == "mcall" and r["method"] == "querier" and self_field_expr(r["recv"], "app"):
+            via = "self.app.querier()"
+        addr = "self.contract()" if self_call(inner["args"][0], "contract") else "self.contract_addr" if self_field_expr(inner["args"][0], "contract_addr") else None
+        nf["op"] = {"kind": "query_wasm_smart", "via": via, "addr": addr, "msg": is_msg(inner["args"][1])}
+        return nf
+    if inner["k"] == "mcall" and inner["method"] == "wasm_sudo" and len(inner["args"]) == 2:
+        r = A.strip_expr(inner["recv"])
+        via = "self.app.app_mut()" if r["k"] == "mcall" and r["method"] == "app_mut" and self_field_expr(r["recv"], "app") else None
+        addr = "self.contract_addr" if self_field_expr(inner["args"][0], "contract_addr") else None
+        nf["op"] = {"kind": "wasm_sudo", "via": via, "addr": addr, "msg": is_msg(inner["args"][1])}
+        return nf
+    if inner["k"] == "call" and A.path_ids(inner["func"]) and A.path_ids(inner["func"])[-1] == "new" and A.path_ids(inner["func"])[-2] in ("ExecProxy", "MigrateProxy") and len(inner["args"]) == 3:
+        nf["op"] = {"kind": A.path_ids(inner["func"])[-2], "addr": "self.contract_addr" if self_field_expr(inner["args"][0], "contract_addr") else None,
+                    "msg": is_msg(inner["args"][1]), "app": self_field_expr(inner["args"][2], "app")}
+        return nf
+    raise G.Unrecognised(f"helper {f['name']}: operation not recognised")
+
+
+OP_OF_KIND = {"exec": {"executor_builder", "ExecProxy"}, "query": {"query_wasm_smart"}, "sudo": {"wasm_sudo"}, "migrate": {"MigrateProxy"}}
+
+
+def expected_api_self(m):
+    if m.kind == "contract":
+        return A.type_str(m.self_ty)
+    return None   # interface: `dyn Iface<Error = (), A = Self::A, ..>`; checked by prefix
+
+
+def check_helper_impl(ctx, rule, m, g, imp, label, allowed_kinds, remote):
+    """Every handler of the allowed kinds has exactly one helper method in `imp` that builds its variant with the
+    parameters in order and hands it to the operation of its kind."""
+    key0 = [m.crate_key, "::".join(m.modpath + [m.name]), label]
+    c2v = {}
+    types = {}
+    for kind in allowed_kinds:
+        try:
+            ty = g.msg_type(kind)
+        except G.Unrecognised:
+            ty = None
+        if ty is not None:
+            types[kind] = ty
+            c2v[kind] = ctor_to_variant(g, ty)
+    infos = {}
+    for kind in allowed_kinds:
+        if kind in ENUM_KINDS and kind in types:
+            infos[kind] = C.enum_info(ctx, m, g, kind, rule)
+    methods = {}
+    for f in imp["items"]:
+        if f.get("k") != "fn":
+            continue
+        try:
+            methods[f["name"]] = classify_helper(f)
+        except G.Unrecognised as e:
+            ctx.unrecognised(rule, key0 + [f["name"]], C.where(m, f), str(e))
+    used = set()
+    for kind in allowed_kinds:
+        for h in m.handlers[kind]:
+            key = key0 + [kind, h.fn]
+            ctx.inst(rule, distinct=(m.key, label, kind, h.fn))
+            if kind in ENUM_KINDS:
+                info = infos.get(kind)
+                if info is None:
+                    continue
+                vs = info.h2v.get(h.fn, [])
+                vn = vs[0] if len(vs) == 1 else None
+            else:
+                vn = None
+            cands = [nf for nf in methods.values() if nf["msg"]["acc"] == ACCESSOR[kind] and c2v.get(kind, {}).get(nf["msg"]["ctor"], "?") == vn
+                     and nf["msg"]["ctor"] in c2v.get(kind, {})]
+            if len(cands) != 1:
+                ctx.violation(rule, key + ["count"], C.where(m, imp), f"exactly one helper building the message of {kind} handler {h.fn}", [c["name"] for c in cands],
+                              "helper methods correspond one-to-one to handlers", "EmitMethods / Executor / Querier emitters")
+                continue
+            nf = cands[0]
+            used.add(nf["name"])
+            where = C.where(m, nf["fn"])
+            if nf["msg"]["args"] != [p["name"] for p in h.params]:
+                ctx.violation(rule, key + ["args"], where, [p["name"] for p in h.params], nf["msg"]["args"], "helper passes its parameters to the message constructor in order")
+            if [n for n, _ in nf["params"]] != [p["name"] for p in h.params]:
+                ctx.violation(rule, key + ["params"], where, [p["name"] for p in h.params], [n for n, _ in nf["params"]], "helper takes the handler's parameters")
+            else:
+                got_t = [A.compact(t) for _, t in nf["params"]]
+                want_t = [A.compact(p["ty_raw_s"]) for p in h.params]
+                want_t2 = [A.compact(p["ty_s"]) for p in h.params]
+                if got_t != want_t and got_t != want_t2:
+                    ctx.violation(rule, key + ["param-types"], where, want_t, got_t, "helper takes the handler's parameter types")
+            op = nf["op"]
+            if op["kind"] not in OP_OF_KIND[kind]:
+                ctx.violation(rule, key + ["operation"], where, sorted(OP_OF_KIND[kind]), op["kind"], "helper of kind K performs the K operation", "kind mix-up between helper emitters")
+            if remote:
+                if op["kind"] == "executor_builder" and not (op["contract"] and op["funds"] and op["encodes_msg"] and op["state"] == "ReadyExecutorBuilderState"):
+                    ctx.violation(rule, key + ["builder"], where, "Ready builder from self.contract(), self.funds(), to_json_binary(&msg)?", op, "remote executor carries address, funds and the encoded message")
+                if op["kind"] == "query_wasm_smart" and not (op["via"] == "self.querier()" and op["addr"] == "self.contract()" and op["msg"]):
+                    ctx.violation(rule, key + ["query"], where, "self.querier().query_wasm_smart(self.contract(), &query)", op, "remote querier targets the handle's address with the built query")
+            else:
+                okop = op.get("msg") and op.get("addr") == "self.contract_addr"
+                if op["kind"] in ("ExecProxy", "MigrateProxy"):
+                    okop = okop and op.get("app")
+                if op["kind"] == "query_wasm_smart":
+                    okop = okop and op.get("via") == "self.app.querier()"
+                if op["kind"] == "wasm_sudo":
+                    okop = okop and op.get("via") == "self.app.app_mut()"
+                if not okop:
+                    ctx.violation(rule, key + ["proxy-op"], where, "operation on the proxy's own address / app with the built message", op, "proxy call = raw JSON to the same chain operation")
+            # api self type
+            st = nf["msg"]["self_ty"]
+            if m.kind == "contract":
+                if nf["msg"]["api"] != "contract" or st != A.type_str(m.self_ty):
+                    ctx.violation(rule, key + ["api"], where, f"<{A.type_str(m.self_ty)} as ContractApi>", f"<{st} as {nf['msg']['api']}>", "helper uses this contract's own message types")
+            else:
+                if nf["msg"]["api"] != "iface" or not st.startswith("dyn " + m.name):
+                    ctx.violation(rule, key + ["api"], where, f"<dyn {m.name}<..> as InterfaceMessagesApi>", f"<{st}>", "helper uses this interface's own message types")
+            if kind == "query":
+                rt = nf["ret"] or ""
+                want_r = h.resp_ty_s if m.kind == "contract" else None
+                if m.kind == "contract" and not (A.compact(rt).startswith("Result<" + A.compact(h.resp_ty_s or "") + ",")):
+                    ctx.violation(rule, key + ["query-ret"], where, f"Result<{h.resp_ty_s}, _>", rt, "query helper returns the declared response type")
+    extra = set(methods) - used
+    if extra:
+        ctx.violation(rule, key0 + ["extra-methods"], C.where(m, imp), "helpers only for declared handlers", sorted(extra), "helper methods correspond one-to-one to handlers")
 
 
 def check_helper_kinds(ctx):
-    ctx.note("C04.e (helpers construct messages of their own kind) is decided by the C10/C12 helper rules")
+    ctx.note("C04.e (helpers construct messages of their own kind and call their own kind's operation) is decided by C10.executor/querier and C12.proxy (rule `operation`)")
